@@ -109,6 +109,11 @@ impl C18 {
                     k += 1;
                     // M6: remaining length after k next()
                     let lk = catch(|| it.len());
+                    let hk = catch(|| it.size_hint());
+                    if hk != Out::Val((n - k, Some(n - k))) {
+                        viol(ctx, "size_hint-after-next", format!("after {} next(): size_hint() = {:?}, {} items still to come", k, hk, n - k));
+                        return;
+                    }
                     if lk != Out::Val(n - k) {
                         viol(ctx, "len-after-next", format!("after {} next(): len() = {:?}, {} items still to come", k, lk, n - k));
                         return;
